@@ -10,6 +10,9 @@ Correspondence: operation histories on the real Session (SQLite) vs the model; c
              emitted.
 Direct oracle: lib_uow_oracle.check_case_c34 (uniqueness, results are the identity-map
              instances, get without SQL when present and unexpired).
+Identity tokens (not modelled): a second stream of histories with Session.get(identity_token=)
+             and queries executed with the identity_token execution option, the same primary key
+             under up to three tokens; direct oracle lib_uow_oracle.check_case_tokens.
 """
 import json
 import os
@@ -19,7 +22,7 @@ LEVEL = "proof"
 LEAN = ["SaVerif.Props.C34"]
 META = {
     "text": "Lean: for ALL histories of the transcribed session machine (add, delete, flush incl. failures, commit, rollback, savepoints, expunge, close, merge, get, queries with/without populate_existing, refresh, primary-key changes, make_transient*) no identity key occurs twice in the identity map (identity_unique, induction over the history; 70 preservation lemmas, one per transcribed function); Session.get for a present unexpired instance returns it with no SQL and no state change (all states); a load returns the identity map's instance for the row. The model is tied to the code by a per-operation differential run; the property itself (one persistent instance per key, queries/get/merge return that instance, no SQL when present) is re-checked on the real Session by an independent oracle.",
-    "note": "Not provable because false for the code as it is (counterexample theorems + known findings): identity-map entries can be detached/deleted instances; two attached instances can share a key after identity_map.replace evicts one. Modelled-not-verified: SQLite as a set of primary keys; yield_per only on the real side (the model has no buffering); identity tokens are not modelled (single token None). One mapper, one integer primary key.",
+    "note": "Not provable because false for the code as it is (counterexample theorems + known findings): identity-map entries can be detached/deleted instances; two attached instances can share a key after identity_map.replace evicts one. Modelled-not-verified: SQLite as a set of primary keys; yield_per only on the real side (the model has no buffering); identity tokens are not modelled in Lean (single token None); they are covered by the direct oracle only (get / query with identity_token, same primary key under several tokens: the instance returned carries exactly the requested (pk, token) and is the identity map's, no SQL when it is present and unexpired). One mapper, one integer primary key.",
     "technique": "Lean 4 invariant proof by induction over operation histories of a transcribed session/identity-map machine + per-operation differential correspondence on SQLite",
     "design_ref": "DESIGN.md §3 C34",
 }
@@ -75,7 +78,9 @@ def run(ctx, deep=False):
         "fifth of length 3 (quick) or all of length <=3 plus a seeded 1/20 of length 4 (thorough) over a 24-operation alphabet "
         "(incl. query with/without populate_existing, refresh, get, merge, pk change) on two instances; plus seeded random histories "
         "(identity-heavy and general profiles; queries with populate_existing and yield_per at random) chosen while executing the "
-        "real code; non-trivial = at least one lifecycle event fired"
+        "real code; non-trivial = at least one lifecycle event fired. Identity tokens: 1500 (quick) / 6000 (thorough) further random "
+        "histories with get(identity_token=t) and queries under execution option identity_token=t, t in {None, t1, t2}, checked by "
+        "the direct oracle only; non-trivial there = one primary key present under two tokens at once"
     )
     ctx.trusted.append("SQLite via sqlite3 (autocommit=False, one connection); the model's database is a set of primary keys with snapshot/rollback")
     ctx.trusted.append("Python dict/set iteration order: outcomes that depend on set order make the model abstain from the rest of the case")
@@ -86,6 +91,27 @@ def run(ctx, deep=False):
     cases = G.run_jobs(jobs_for(ctx, deep), int(os.environ.get("VERIF_PROCS", "6")))
     evaluate(ctx, cases, "generated")
     ctx.exhaustive = False
+    run_tokens(ctx, deep)
+
+
+def token_failure_key(f):
+    return "c34-%s:%s" % (f["check"], f["sig"])
+
+
+def run_tokens(ctx, deep=False):
+    """identity tokens: histories with get(identity_token=) / queries under an identity_token
+    execution option; direct oracle only (lib_uow_oracle.check_case_tokens)"""
+    from harness import lib_uow_gen as G
+
+    thorough = ctx.tier == "thorough" or deep
+    jobs = [("tokens", "C34tok:%d:%d:%s" % (ctx.seed, c, "deep" if deep else ctx.tier), 500 if thorough else 250, 5, 20 if thorough else 14, 0.7)
+            for c in range(12 if thorough else 6)]
+    for eoc, ops, two, f in G.run_jobs(jobs, int(os.environ.get("VERIF_PROCS", "6"))):
+        ctx.case({"eoc": eoc, "ops": ops}, nontrivial=two)
+        ctx.count("tokens:same-pk-under-two-tokens" if two else "tokens:other")
+        if f is not None:
+            ctx.count("oracle:" + token_failure_key(f))
+            ctx.violation(token_failure_key(f), {"eoc": eoc, "ops": [list(o) for o in ops[: f["i"] + 1]], "tokens": True}, f["detail"])
 
 
 def search(ctx, broken):
@@ -100,6 +126,7 @@ def search(ctx, broken):
     if not [v for v in sub.violations if "@" in v["key"]]:
         cases = G.run_jobs(jobs_for(sub, deep=True), int(os.environ.get("VERIF_PROCS", "6")))
         evaluate(sub, cases, "search-deep")
+        run_tokens(sub, deep=True)
     ctx.violations.extend(sub.violations)
 
 
@@ -107,4 +134,14 @@ def replay(ctx, obj):
     from harness import lib_uow_check as K
     from harness import lib_uow_oracle as O
 
+    if obj["case"].get("tokens"):
+        from harness import lib_uow as L
+        from harness import lib_uow_gen as G
+
+        eoc, ops, recs = G.run_fixed(obj["case"]["eoc"], obj["case"]["ops"])
+        f = O.check_case_tokens(eoc, ops, recs)
+        for op, r in zip(ops, recs):
+            print("   %-14s %s identity_map=%s sql=%s" % (L.fmt_op(op), r["res"] if r else "bad-oid", r["imap_t"] if r else "", r["q"] if r else ""))
+        print("oracle:", f["detail"] if f else None)
+        return f is not None and token_failure_key(f) == obj["key"]
     return K.replay(ctx, obj, "c34", O.check_case_c34)
